@@ -132,6 +132,17 @@ pub fn gen_plan(prop: &str, seed: u64) -> Plan {
     set_packed_strings_ok(false);
     let mut plan = gen_plan_inner(prop, seed, &mut rng);
     plan.knobs.insert("spicy".into(), spicy as i64);
+    // The thorough tier explores more plans and, where a plan bounds an enumeration, also deeper
+    // ones: more crash images per primary run and deeper nesting (C09), more files and more
+    // damages per file (C14). (The tier reaches the workers through the environment; a replay file
+    // carries the whole plan, knobs included.)
+    if std::env::var("LSIM_TIER").ok().as_deref() == Some("thorough") {
+        for (k, v) in [("max_images", 400i64), ("nested_per_image", 4), ("rot_files", 2), ("rot_max_damage", 1500)] {
+            if plan.knobs.contains_key(k) {
+                plan.knobs.insert(k.into(), v);
+            }
+        }
+    }
     plan
 }
 
